@@ -58,6 +58,8 @@ struct Case {
     tx: usize,
     /// unsolicited transmit size
     utx: usize,
+    /// configured limit of object headers in a READ (None = library default of 64)
+    max_read_headers: Option<u16>,
     ctrl: u8,
     func: u8,
     objects: Vec<u8>,
@@ -225,6 +227,7 @@ fn build(tier: &str) -> Vec<C12> {
                             state,
                             tx,
                             utx: tx,
+                            max_read_headers: None,
                             ctrl,
                             func,
                             objects: vec![],
@@ -244,6 +247,7 @@ fn build(tier: &str) -> Vec<C12> {
                                 state,
                                 tx,
                                 utx: tx,
+                                max_read_headers: None,
                                 ctrl,
                                 func,
                                 objects: hd.bytes.clone(),
@@ -280,6 +284,7 @@ fn build(tier: &str) -> Vec<C12> {
                             state,
                             tx,
                             utx: tx,
+                            max_read_headers: None,
                             ctrl,
                             func,
                             objects,
@@ -314,7 +319,7 @@ fn build(tier: &str) -> Vec<C12> {
                     let objects = app::prefixed8(12, 1, &items);
                     let ctrl = 0xC0 | 5;
                     let e = if func == fc::DIRECT_OPERATE_NR { Expect::NoReply } else { Expect::Reply };
-                    cases.push(Case { state, tx, utx, ctrl, func, objects, labels: vec!["n-crobs"], expect: e });
+                    cases.push(Case { state, tx, utx, max_read_headers: None, ctrl, func, objects, labels: vec!["n-crobs"], expect: e });
                 }
             }
             // READ with many headers
@@ -325,8 +330,21 @@ fn build(tier: &str) -> Vec<C12> {
                 }
                 let ctrl = 0xC0 | 6;
                 let e = if n > 64 { Expect::MustError } else { Expect::Reply };
-                cases.push(Case { state, tx, utx, ctrl, func: fc::READ, objects, labels: vec!["n-class0-headers"], expect: e });
+                cases.push(Case { state, tx, utx, max_read_headers: None, ctrl, func: fc::READ, objects, labels: vec!["n-class0-headers"], expect: e });
             }
+        }
+    }
+    // a configured limit of READ headers (never below the documented minimum of 64): at the
+    // limit answered, one more rejected
+    for configured in [1u16, 64, 65, 100] {
+        let limit = configured.max(64) as usize;
+        for n in [limit, limit + 1] {
+            let mut objects = Vec::new();
+            for _ in 0..n {
+                objects.extend(app::hdr_all(1, 0));
+            }
+            let e = if n > limit { Expect::MustError } else { Expect::Reply };
+            cases.push(Case { state: State::Idle, tx: 2048, utx: 2048, max_read_headers: Some(configured), ctrl: 0xC0 | 7, func: fc::READ, objects, labels: vec!["configured-read-header-limit"], expect: e });
         }
     }
     spaces.push(C12 { name: format!("large-requests-{tier}"), cases });
@@ -340,6 +358,7 @@ impl C12 {
         let cfg = OCfg {
             sol_tx: c.tx,
             unsol_tx: c.utx,
+            max_read_headers: c.max_read_headers,
             unsolicited: matches!(c.state, State::UnsolConfirmWait | State::NullUnsolConfirmWait),
             event_buf: [10; 8],
             max_unsol_retries: Some(0),
@@ -482,6 +501,13 @@ impl C12 {
                             "C12.S1",
                             "response-sequence-differs-from-request",
                             format!("request seq {} response {}", seq, app::hex(&first.raw[..4])),
+                        ));
+                    }
+                    if c.expect == Expect::Reply && c.labels.contains(&"configured-read-header-limit") && first.iin2 & app::iin2::ERROR_MASK != 0 {
+                        return Some(Violation::new(
+                            "C12.R2",
+                            "request-within-the-configured-limit-rejected",
+                            format!("IIN2={:02X} for a READ with {} headers, limit {:?}", first.iin2, c.objects.len() / 3, c.max_read_headers),
                         ));
                     }
                     if c.expect == Expect::MustError && first.iin2 & app::iin2::ERROR_MASK == 0 {
